@@ -57,11 +57,28 @@ def main():
             sh([PY, "setup.py", "-q", "build_ext", "--inplace"], cwd=wt, env=env)
             rc, out = sh([PY, demo], cwd=wt, env=env, timeout=1200)
             meta["demo_clean_exit"] = rc
+            # --- our check against the change (the patched worktree is used as the repository to verify;
+            #     equivalent to `git -C /repo apply`, but does not disturb /repo while other work goes on)
+            if "--in-repo" not in sys.argv:
+                rc, out = sh(["git", "apply", patch], cwd=wt)
+                assert rc == 0, out
+                cenv = dict(os.environ, VT_REPO=wt, VT_EVIDENCE_DIR="/tmp/seedeval_ev_%s" % name,
+                            VT_REPLAY_DIR="/tmp/seedeval_rp_%s" % name)
+                t0 = time.time()
+                rc, out = sh(["./check", pid, "--tier", tier], cwd="/verif", env=cenv, timeout=7200)
+                meta["check_exit"] = rc
+                meta["check_wall_s"] = round(time.time() - t0, 1)
+                vio = [l for l in out.splitlines() if l.startswith("VIOLATION") or l.startswith("  key:")]
+                meta["check_output"] = vio[:12] + out.splitlines()[-2:]
+                meta["detected"] = rc == 1 and any(l.startswith("VIOLATION") for l in out.splitlines())
+                meta["check_tier"] = tier
+                meta["check_mode"] = "VT_REPO=<patched scratch worktree>"
+                shutil.rmtree("/tmp/seedeval_ev_%s" % name, ignore_errors=True)
+                shutil.rmtree("/tmp/seedeval_rp_%s" % name, ignore_errors=True)
     finally:
         sh(["git", "-C", "/repo", "worktree", "remove", "--force", wt])
         shutil.rmtree(wt, ignore_errors=True)
-    # --- our check against the change, in /repo itself
-    if meta.get("patch_applies"):
+    if meta.get("patch_applies") and "--in-repo" in sys.argv:
         rc, out = sh(["git", "-C", "/repo", "status", "--porcelain", "--untracked-files=no"])
         assert out.strip() == "", "/repo has uncommitted changes:\n" + out
         try:
@@ -75,6 +92,7 @@ def main():
             meta["check_output"] = vio[:12] + out.splitlines()[-2:]
             meta["detected"] = rc == 1 and any(l.startswith("VIOLATION") for l in out.splitlines())
             meta["check_tier"] = tier
+            meta["check_mode"] = "git -C /repo apply"
         finally:
             sh(["git", "-C", "/repo", "checkout", "--", "."])
     dst = os.path.join("/verif/seeded", name)
